@@ -186,6 +186,16 @@ func runMsgIDOnID(id uint64, tr *Tracer) {
 	tr.emit(Ev{"ev": "Round", "id": be(id, 8), "id2": be(cmpp.CombineMsgID(a, b, c, d, e, g, h), 8)})
 	if id != 0 {
 		s := cmpp.MsgID2String(id)
+		// every other id: the parser has just been given damaged strings (a letter in one of the fields, a string cut
+		// short, one digit too many) - what it answers for those is not judged, what it answers afterwards is
+		if id%2 == 0 && len(s) >= 4 {
+			k := int(id>>3) % len(s)
+			_ = cmpp.MsgIDString2Uint64(s[:k] + "x" + s[k+1:])
+			if id%4 == 0 {
+				_ = cmpp.MsgIDString2Uint64(s[:len(s)-1-int(id>>5)%3])
+				_ = cmpp.MsgIDString2Uint64("9" + s + "x")
+			}
+		}
 		tr.emit(Ev{"ev": "Str", "id": be(id, 8), "s": S(s), "back": be(cmpp.MsgIDString2Uint64(s), 8)})
 	}
 	_ = rand.Int
